@@ -143,3 +143,40 @@ Proof.
   intros H S. exists (spec_search ks b). split; [now apply search_all|]. split; [reflexivity|].
   now apply search_nondec.
 Qed.
+
+(** * whole strings: the encoding is the string plus 0xff, and Cmp extends Go's string order *)
+Lemma encB_whole x : bytes_ok x -> encB (msb_bits x) = x ++ [255].
+Proof.
+  intros Hx. unfold encB. rewrite pack_msb_bits by exact Hx. f_equal. f_equal.
+  rewrite mask_eq, msb_bits_length.
+  replace (8 * length x)%nat with (8 * length x + 0)%nat by lia. rewrite padn_add_mult. reflexivity.
+Qed.
+
+Lemma Cmp_whole x y : bytes_ok x -> bytes_ok y ->
+  Cmp (x ++ [255]) (y ++ [255]) = Some (cmp_sign (bytes_cmp x y)).
+Proof.
+  intros Hx Hy. rewrite <- !encB_whole by assumption. rewrite Cmp_encB.
+  now rewrite <- bytes_cmp_msb_bits.
+Qed.
+
+Lemma New_whole s : bytes_ok s -> New s 0 (8 * zlen s) = Some (s ++ [255]).
+Proof.
+  intros Hs. pose proof (zlen_nonneg s). rewrite New_encB by (assumption || lia).
+  rewrite B_from0 by lia. rewrite firstn_all2 by (rewrite msb_bits_length; unfold zlen; lia).
+  now rewrite encB_whole.
+Qed.
+
+(** * explicit values *)
+Lemma B_length s f t : 0 <= f <= t -> t <= 8 * zlen s -> zlen (B s f t) = t - 8 * (f / 8).
+Proof.
+  intros H Ht. unfold B, zlen in *. rewrite firstn_length, skipn_length, msb_bits_length.
+  assert (0 <= 8 * (f / 8) <= f) by (Z.div_mod_to_equations; lia). lia.
+Qed.
+
+Lemma Len_New_value s f t : bytes_ok s -> 0 <= f <= t -> t <= 8 * zlen s ->
+  match New s f t with Some e => Len e | None => None end = Some (t - 8 * (f / 8)).
+Proof. intros Hs H Ht. rewrite Len_New by assumption. unfold spec_Len. f_equal. now apply B_length. Qed.
+
+Lemma StrCmpUpto_encB a b : bytes_ok a ->
+  StrCmpUpto a (encB b) = Some (cmp_sign (bits_cmp (upto a b) b)).
+Proof. intros Ha. rewrite StrCmpUpto_eq. now apply CmpUpto_encB. Qed.
